@@ -50,6 +50,7 @@ class C03(Prop):
     trusted = ["Version parsing/rendering (C02) and the version order (C01) as modelled in PkgModel/Version.lean",
                "str.isdigit / str.lower on the ASCII strings that reach _pad_version / _compare_arbitrary"]
     partial = []
+    dist_limit = 250
     budget = {"quick": (9000, 9000), "thorough": (400000, 250000)}
 
     def __init__(self):
@@ -95,7 +96,10 @@ class C03(Prop):
         ov = rng.choice([None, None, None, True, False])
         pre = rng.choice([True, True, True, True, True, True, None, None, None, False, False])
         args = [core.enc(s), ob(ov), core.enc(cs), ob(pre)]
-        self._label[("spec.contains", tuple(args))] = label + "|pre=" + ("T" if pre else ("N" if pre is None else "F"))
+        if pre is not True and not label.startswith("malformed"):
+            label = (f"gate:arg={'None' if pre is None else 'False'},override={ov},cand-pre={R.is_pre(c)},"
+                     f"spec-pre={R.is_pre(v) if op != '===' else 'text'},{'!=' if op == '!=' else 'other-op'}")
+        self._label[("spec.contains", tuple(args))] = label
         return ("spec.contains", args)
 
     def _grid(self, rng):
@@ -200,7 +204,7 @@ class C03(Prop):
         lab = self._label.get((op, tuple(args)))
         head = out.split(" ", 1)[0][:16]
         if op == "spec.contains":
-            return f"contains:{lab or '?'}={head}"
+            return f"contains:{lab or '?'}" + (f"={head}" if head not in ("0", "1") else "")
         if op == "spec.pad":
             a, b = dec_list(args[0]), dec_list(args[1])
             na = len(list(itertools.takewhile(str.isdigit, a)))
